@@ -601,7 +601,10 @@ func (e *Engine) skipTo(c *run) int64 {
 		return c.startSeq + 1
 	case types.SkipToFirst, types.SkipToLast, types.SkipToVariable:
 		if s := seqOfLabel(c, e.spec.SkipSymbol, e.spec.Skip == types.SkipToFirst, e.subsets); s >= 0 {
-			return s + 1
+			if s <= c.startSeq {
+				return c.startSeq + 1
+			}
+			return s
 		}
 	}
 	return endSeq + 1
